@@ -14,7 +14,7 @@ import gen
 from canon import f2bits, bits2f
 from env import import_dit
 
-TRANSFORMS = ['relabel', 'relabel-reverse', 'class', 'row-order', 'dense', 'pad-space', 'names', 'permute-vars', 'log-sparse']
+TRANSFORMS = ['relabel', 'relabel-reverse', 'class', 'row-order', 'dense', 'pad-space', 'names', 'names', 'permute-vars', 'log-sparse']
 
 
 class C08(object):
@@ -82,8 +82,10 @@ class C08(object):
                                     sparse=bool(rs.randint(2)), trim=False), ident
         if T == 'names':
             d2 = d.copy()
-            names = list('XYZW')[:n]
+            names = [str(x) for x in rs.permutation(list('XYZWAB'))[:n]]     # index order != alphabetical order
             d2.set_rv_names(names)
+            if rs.randint(3):
+                d2 = d2.copy()                                                # names must survive a copy in index order
             return d2, (lambda i: names[i])
         if T == 'permute-vars':
             perm = [int(x) for x in rs.permutation(n)]           # new variable j is old variable perm[j]
@@ -127,8 +129,18 @@ class C08(object):
                 out.append((name, lambda d, a, f=f: f(d, [A(a, g) for g in groups])))
                 out.append((name + '(groups reordered)', lambda d, a, f=f: f(d, [A(a, groups[j]) for j in order])))
             out.append(('cohesion', lambda d, a: mv.cohesion(d, 1 + len(groups) // 2, [A(a, g) for g in groups])))
+            if len(groups) >= 3:
+                # not symmetric in the variables: all groups but the last, conditioned on the last
+                for name in ('coinformation', 'total_correlation', 'dual_total_correlation', 'caekl_mutual_information'):
+                    f = getattr(mv, name)
+                    out.append((name + '(.|last)', lambda d, a, f=f: f(d, [A(a, g) for g in groups[:-1]], A(a, groups[-1]))))
+                    out.append((name + '(all but last)', lambda d, a, f=f: f(d, [A(a, g) for g in groups[:-1]])))
         elif fam == 'common':
             groups = [[i] for i in vars_]
+            if n >= 3:
+                out += [('gk_common_information(0,1)', lambda d, a: mv.gk_common_information(d, [A(a, [0]), A(a, [1])])),
+                        ('gk_common_information(0,1|2)', lambda d, a: mv.gk_common_information(d, [A(a, [0]), A(a, [1])], A(a, [2]))),
+                        ('mss_common_information(0,2)', lambda d, a: mv.mss_common_information(d, [A(a, [0]), A(a, [2])]))]
             out += [('gk_common_information', lambda d, a: mv.gk_common_information(d, [A(a, g) for g in groups])),
                     ('mss_common_information', lambda d, a: mv.mss_common_information(d, [A(a, g) for g in groups]))]
         elif fam == 'profile':
@@ -213,11 +225,62 @@ class C08(object):
                ('variational_distance', lambda a, b: D.variational_distance(a, b)),
                ('hellinger_distance', lambda a, b: D.hellinger_distance(a, b)),
                ('cross_entropy', lambda a, b: D.cross_entropy(a, b))]
+        fns += [('renyi_divergence(2)', lambda a, b: D.renyi_divergence(a, b, alpha=2)),
+                ('hellinger_divergence(0.5)', lambda a, b: D.hellinger_divergence(a, b, alpha=0.5)),
+                ('tsallis_divergence(2)', lambda a, b: D.tsallis_divergence(a, b, alpha=2)),
+                ('bhattacharyya_coefficient', lambda a, b: D.bhattacharyya_coefficient(a, b))]
         for name, f in fns:
             x, y = float(f(d, e)), float(f(d2, e2))
             if not self.same(x, y, 1e-9):
                 r.oracle_fail = '%s = %r but %r after transforming both arguments by "%s"' % (name, x, y, case['transform'])
                 return
+        # transformations that keep the outcome labels may be applied to ONE argument only; the second distribution
+        # then also lives on a different (smaller) support: outcomes are matched by label, never by position
+        if case['transform'] in ('row-order', 'dense', 'pad-space', 'log-sparse') and len(case['outs']) >= 2:
+            third = dict(case)
+            fr = [Fraction(p) for p in case['pmf']]
+            third['outs'] = case['outs'][1:]
+            third['pmf'] = [str(fr[0] + fr[1])] + [str(p) for p in fr[2:]]
+            third['alphabets'] = None
+            g = gen.build(third)
+            g2, _ = self.transform(third, g, np.random.RandomState(seed + 7))
+            for name, f in fns:
+                for (a1, b1), (a2, b2), what in (((d, e), (d2, e), 'first'), ((d, e), (d, e2), 'second'),
+                                                  ((g, e), (g2, e), 'first (smaller support)'),
+                                                  ((g, e), (g, e2), 'second (first has smaller support)'),
+                                                  ((g, e), (g2, e2), 'both (first has smaller support)')):
+                    if name == 'jensen_shannon_divergence' and case['transform'] == 'pad-space':
+                        continue        # JSD requires equal sample spaces by contract
+                    x, y = float(f(a1, b1)), float(f(a2, b2))
+                    if not self.same(x, y, 1e-9):
+                        r.oracle_fail = ('%s = %r but %r after transforming the %s argument by "%s"'
+                                         % (name, x, y, what, case['transform']))
+                        return
+        # a first argument whose (dense) sample space has the same SIZE as the second's but another alphabet: variable 0
+        # never takes symbol s, and a fresh symbol with probability zero is in its alphabet instead
+        klass = case['klass']
+        outs = [list(o) for o in case['outs']]
+        fr = [Fraction(p) for p in case['pmf']]
+        E = [sorted(set(o[i] for o in outs)) for i in range(n)]
+        if len(E[0]) >= 2:
+            sdrop = E[0][int(rs.randint(len(E[0])))]
+            keep = [(o, p) for o, p in zip(outs, fr) if o[0] != sdrop and p > 0]
+            if keep:
+                tot = sum(p for _, p in keep)
+                ho, hp = [o for o, _ in keep], [float(p / tot) for _, p in keep]
+                h_sparse = dit.Distribution([gen.to_py(o, klass) for o in ho], hp)
+                space = [gen.to_py(list(o), klass) for o in itertools.product(sorted(set(E[0]) - {sdrop} | {5}), *E[1:])]
+                h_dense = dit.Distribution([gen.to_py(o, klass) for o in ho], hp, sample_space=space, sparse=False)
+                e_dense = e.copy()
+                e_dense.make_dense()
+                for name, f in fns:
+                    if name == 'jensen_shannon_divergence':
+                        continue
+                    x, y = float(f(h_sparse, e)), float(f(h_dense, e_dense))
+                    if not self.same(x, y, 1e-9):
+                        r.oracle_fail = ('%s = %r for sparse arguments but %r when both are dense over sample spaces of equal '
+                                         'size and different alphabets' % (name, x, y))
+                        return
         x = float(D.maximum_correlation(d, [[0], [1]]))
         y = float(D.maximum_correlation(d2, [[addr(0)], [addr(1)]]))
         if not self.same(x, y, 1e-8):
